@@ -1128,7 +1128,8 @@ func emitFacts(path string, pkgs []*packages.Package) {
 					// a writer that gives up removes the permission entry through deleteIf(addr, perm) only
 					txt := nodeText(p, fd.Body)
 					key := "clientPerm_" + fd.Name.Name
-					found[key] = strings.Contains(txt, "permMap.deleteIf(addr, perm)") && !strings.Contains(txt, "permMap.delete(")
+					found[key] = (strings.Contains(txt, "permMap.deleteIf(addr, perm)") || strings.Contains(txt, "permMap.deleteIfIdle(addr, perm)")) &&
+						!strings.Contains(txt, "permMap.delete(")
 				}
 				if p.Name == "allocation" && fd.Name.Name == "AddPermission" {
 					// the permission's timer is armed (perms.start) while permissionsLock is write-held, i.e. between
